@@ -177,6 +177,7 @@ def crash_to_agg(e, unit):
 def _call(unit):
     warnings.simplefilter("ignore")
     try:
+        reset_globals()
         return _WORK_FN(unit)
     except BaseException as e:  # a harness crash must not look like "no violation"
         return crash_to_agg(e, unit)
